@@ -283,6 +283,7 @@ def total(ctx):
     if nsinks == 0:
         ck.floor("allocation sinks in renderers", 0, 1)
     ck.cov["renderer_alloc_sinks"] = nsinks
+    renderer_asserts(ctx, roots)
     if not any(v["rule"] == "C18.total" for v in ck.violations):
         ck.ok("C18.total", "renderers")
     # overflow-checked arithmetic on trace data inside the recorder
@@ -302,6 +303,54 @@ def total(ctx):
                     ck.violation("C18.total", "trace recorder", "%s overflow check on the i%d nesting level" % (t["msg"]["op"], lty[1]),
                                  where=F.site_str(body, t["sp"]),
                                  what="deep call chains / many unmatched returns overflow the 16-bit nesting level (abort in this profile)")
+
+
+def renderer_asserts(ctx, roots):
+    """path triage of the overflow / bounds checks in trace() and call_stack(): an arithmetic check on machine state (a
+    vector length, a recorded level, an address) is reported unless the path establishes it -- a dominating comparison,
+    or, for `len(X) - k`, k elements of X already taken from an iterator over X on this path"""
+    from .. import memmodel as M
+    from .. import panics as PN
+    from .. import prims as P
+    ck, facts = ctx.check, ctx.facts
+    mp = M.MemPrims(facts)
+    pr = P.HandlerPrims(facts, ctx.roles)
+
+    def state_leaf(x):
+        r = repr(x)
+        return "'init', 'self'" in r or x[0] in ("elem", "len")
+    n = 0
+    for k in roots:
+        b = facts.bodies[k]
+        if b["name"] not in ("trace", "call_stack"):
+            continue
+
+        def icpt(I, path, frame, t, name, args):
+            cb = facts.bodies.get(name)
+            if cb is not None and cb.get("impl_self") == AXE and cb["kind"] != "Closure" and name != k and name not in pr.by_path:
+                p2 = path.copy()
+                rt = cb["locals"][0]
+                if isinstance(rt, list) and rt[0] == "adt" and rt[1] == "std::result::Result":
+                    return [(A.OK(("ret", name, (), len(path.events))), path), (A.ERR(("e",)), p2)]
+                if isinstance(rt, list) and rt[0] == "adt" and rt[1] == "std::option::Option":
+                    return [(A.SOME(("ret", name, (), len(path.events))), path), (A.NONE, p2)]
+                return [(("ret", name, (), len(path.events)), path)]
+            return mp.intercept(I, path, frame, t, name, args) or pr.intercept(I, path, frame, t, name, args)
+        I = A.Interp(facts, intercept=icpt, max_paths=20000)
+        args = [P.self_ref(bool(b["locals"][1][1]))] + [("param", i) for i in range(2, b["argc"] + 1)]
+        outs = list(I.run(b, args, A.Path()))
+        rep = {}
+        for o in outs:
+            if o.kind == "cut":
+                continue
+            for ev, verdict, reason in PN.triage(o.path, state_leaf):
+                n += 1
+                if verdict == "reported":
+                    rep.setdefault(PN.describe(ev), (ev, reason))
+        for desc, (ev, reason) in sorted(rep.items()):
+            ck.violation("C18.total", "api=%s" % b["name"], "%s unchecked" % desc, where=ev[4], witness={"reason": reason},
+                         what="the renderer aborts (overflow check of this profile) for some machine state, e.g. an empty call stack")
+    ck.cov["renderer_assert_sites_triaged"] = n
 
 
 def signed_origin(body, op, level_ty):
